@@ -35,7 +35,7 @@ func pickProfile(r *kit.Rng) profile {
 	if r.Chance(1, 3) {
 		p.keys = []uint32{1, 2}
 	}
-	switch r.Intn(13) {
+	switch r.Intn(14) {
 	case 0, 1, 2:
 		p.name = "contend"
 	case 3, 4:
@@ -79,6 +79,13 @@ func pickProfile(r *kit.Rng) profile {
 		p.name = "slow-call"
 		p.np, p.keys = 2, []uint32{1}
 		p.durs = []int{kit.Pick(r, []int{4, 8, 20, 40})}
+	case 13:
+		// cleanup / release starts while a renewal's CompareAndSwap is in flight, and that renewal then
+		// reports a mismatch (the record went first) or an error up to the deadline: its goroutine
+		// releases by itself while the API call waits for it
+		p.name = "cleanup-during-renewal"
+		p.np, p.keys = 2, []uint32{1}
+		p.durs = []int{kit.Pick(r, []int{4, 8, 20})}
 	}
 	if p.durs == nil {
 		n := 1 + r.Intn(2)
@@ -341,6 +348,61 @@ func (p *profile) driveSlowCall(r *kit.Rng, e *exec, sc *scenario) {
 	}
 }
 
+// driveCleanupDuringRenewal scripts the cleanup-during-renewal family
+func (p *profile) driveCleanupDuringRenewal(r *kit.Rng, e *exec, sc *scenario) {
+	do := func(c choice) bool {
+		if e.apply(c) {
+			sc.Script = append(sc.Script, c)
+			return true
+		}
+		return false
+	}
+	finish := func(t string) {
+		for n := 0; n < 20 && (do(choice{C: "eff", T: t, O: "ok"}) || do(choice{C: "ret", T: t})); n++ {
+		}
+	}
+	d := p.durs[0]
+	if !do(choice{C: "acq", P: 0, K: 1, V: 10, D: d}) {
+		return
+	}
+	finish("a0")
+	if len(e.lis) == 0 {
+		return
+	}
+	for n := r.Intn(2); n > 0; n-- {
+		do(choice{C: "adv"})
+		finish("g0")
+	}
+	do(choice{C: "adv"}) // tick: the renewal is at the entry of CompareAndSwap
+	call := choice{C: "cln", P: 0}
+	if r.Bool() {
+		call = choice{C: "rel", P: 0, K: 1}
+	}
+	switch r.Intn(3) {
+	case 0: // the renewal takes effect first, returns after the call's delete
+		do(choice{C: "eff", T: "g0", O: "ok"})
+		do(call)
+		finish("a0")
+	case 1: // the call's delete lands first: the renewal reports a mismatch
+		do(call)
+		do(choice{C: "eff", T: "a0", O: "ok"})
+		if r.Bool() {
+			do(choice{C: "ret", T: "a0"})
+		}
+		do(choice{C: "eff", T: "g0", O: "ok"})
+	default: // the renewal fails; a rival may take the key once the record is gone
+		do(call)
+		finish("a0")
+		do(choice{C: "eff", T: "g0", O: kit.Pick(r, []string{"errb", "false"})})
+		if do(choice{C: "acq", P: 1, K: 1, V: 11, D: d}) {
+			finish("a1")
+		}
+	}
+	finish("g0")
+	finish("a0")
+	finish("g0")
+}
+
 // epilogue: let every held call through, let time pass timer by timer, clean everybody up and
 // let the longest leadership duration elapse, so that a context that is never cancelled shows
 func (e *exec) epilogue() {
@@ -410,14 +472,29 @@ func runScenario(sc *scenario, p *profile, r *kit.Rng) (kit.Case, error) {
 	if err != nil {
 		return kit.Case{}, err
 	}
-	defer rg.teardown()
+	stuckEnd := false
+	defer func() {
+		rg.teardown()
+		if stuckEnd {
+			rg.abandon()
+		}
+	}()
 	e := &exec{r: rg, sc: sc, seenG: map[int64]bool{}, tags: map[string]bool{}, prev: map[uint32]string{}, vals: map[int]map[string]bool{}, extKeys: map[uint32]bool{}}
 	for range rg.parts {
 		e.api = append(e.api, &apiM{ph: "idle"})
 		e.held = append(e.held, map[uint32]bool{})
 	}
-	if !e.settle() {
-		return kit.Case{}, e.err
+	if !e.settle() { // leftovers of an earlier instance that never park: not this scenario's business
+		for id, s := range e.gs {
+			if !blockedState(s[0]) {
+				abandoned[id] = true
+			}
+		}
+		e.err = nil
+		delete(e.tags, "stuck")
+		delete(e.tags, "not-quiescent")
+		e.settle()
+		e.err = nil
 	}
 	for id, s := range e.gs { // goroutines left over from earlier scenarios
 		if strings.Contains(s[1], "maintainLeadership") {
@@ -430,6 +507,8 @@ func runScenario(sc *scenario, p *profile, r *kit.Rng) (kit.Case, error) {
 		p.driveReacquire(r, e, sc)
 	} else if p != nil && p.name == "slow-call" {
 		p.driveSlowCall(r, e, sc)
+	} else if p != nil && p.name == "cleanup-during-renewal" {
+		p.driveCleanupDuringRenewal(r, e, sc)
 	} else if p != nil {
 		for n := 0; n < p.steps && e.err == nil; n++ {
 			c, ok := p.next(r, e)
@@ -447,7 +526,25 @@ func runScenario(sc *scenario, p *profile, r *kit.Rng) (kit.Case, error) {
 	}
 	e.epilogue()
 	if e.err != nil {
+		stuckEnd = true
 		e.human = append(e.human, "HARNESS: "+e.err.Error())
+		for p, a := range e.api {
+			switch a.ph {
+			case "relwait", "relcad", "relcadret", "clnwait", "clncad", "clncadret", "calling-rel", "calling-cln":
+				e.tags["release-or-cleanup-did-not-terminate"] = true
+				e.human = append(e.human, fmt.Sprintf("ReleaseLeadership/cleanup of participant %d did not terminate", p))
+			}
+		}
+	}
+	if e.tags["hung-api-call"] && e.err == nil {
+		// every thread is parked, nothing is held by the harness, and an API call has not returned
+		stuckEnd = true
+		for p, a := range e.api {
+			if a.ph != "idle" {
+				e.tags["release-or-cleanup-did-not-terminate"] = true
+				e.human = append(e.human, fmt.Sprintf("API call of participant %d (%s) did not terminate: %s", p, a.ph, describeThreads()))
+			}
+		}
 	}
 	if e.reacq {
 		e.tags["reacquired-while-local-leader"] = true
